@@ -199,6 +199,22 @@ class UDescr(Exception):
     self.limit, self.tenant = limit, tenant
 
 
+class USlotsNew(Exception):
+  """Slots assigned in __new__ (from its arguments); one of them is changed again after construction."""
+  __slots__ = ('code', 'used')
+
+  def __new__(cls, code=0, used=0):
+    self = super().__new__(cls, code, used)
+    self.code, self.used = code * 2, used
+    return self
+
+
+def _slots_new_changed():
+  e = USlotsNew(5, 120)
+  e.code = 7
+  return e
+
+
 class UFinal(Exception):
   """A class that refuses to be subclassed."""
   def __init_subclass__(cls, **kw):
@@ -284,6 +300,7 @@ USER = {
     'UMulti': lambda: UMulti('key'), 'UOs': lambda: UOs(errno.EACCES, 'denied', '/x'), 'UKwOnly': lambda: UKwOnly(code=5),
     'UClassDefault': lambda: UClassDefault('cd', 5), 'UNewMismatch': lambda: UNewMismatch(3, 'd'),
     'UDescr': lambda: UDescr('quota', 100, 'acme'),
+    'USlotsNew': lambda: USlotsNew(100, 120), 'USlotsNewChangedLater': _slots_new_changed,
     'UFinal': lambda: UFinal('x'), 'UReadOnlyArgs': lambda: UReadOnlyArgs('y'), 'UValidatingNew': lambda: UValidatingNew(404, 'nf'),
     'GroupArgsReassigned': lambda: _regroup(),
     'UDownload': lambda: UDownload('http://host/file', 503, 'busy'), 'BlockingIO3': lambda: BlockingIOError(11, 'would block', 7),
